@@ -8,7 +8,7 @@ def run(ctx):
     env = {}
     ntab = nwalk = 0
     wl = ctx.pick(40, 60)
-    tmax = ctx.pick(130, 320)
+    tmax = ctx.pick(200, 320)
     if ctx.replay:
         d = json.load(open(ctx.replay))["detail"]
         env["VERIF_FIX_SALT"] = str(d.get("salt", ""))
@@ -22,13 +22,13 @@ def run(ctx):
         if not os.environ.get("VERIF_SKIP_MC"):  # developer switch used by the mutant self-tests
             r0 = ctx.model_check("trie", "MC_MTA", "MC_MTA_cov.cfg", coverage=True, timeout=600)
             ctx.check_coverage(r0, ["Add", "Flush", "Recover", "Witness", "CheckAll", "AddMany"])
-            ctx.model_check("trie", "MC_MTA", "MC_MTA.cfg", constants={"MaxLen": ctx.pick(12, 40)}, timeout=ctx.pick(600, 3000))
+            ctx.model_check("trie", "MC_MTA", "MC_MTA.cfg", constants={"MaxLen": ctx.pick(24, 40)}, timeout=ctx.pick(600, 3000))
             ctx.exhaustive = True
         # table: every length 1..tmax, every item index, before and after Flush+Recover
         tab = ctx.behaviours("trie", "Gen_MTA", "Gen_MTA_table.cfg", workers=1, timeout=1800,
                              constants={"TableFrom": 1, "TableTo": tmax})
         walks = ctx.behaviours("trie", "Gen_MTA", "Gen_MTA.cfg", constants={"MaxOps": wl, "Depth": wl},
-                               simulate="num=%d" % ctx.pick(60, 600), depth=wl + 1, seed=ctx.seed, timeout=1800)
+                               simulate="num=%d" % ctx.pick(150, 600), depth=wl + 1, seed=ctx.seed, timeout=1800)
         ntab, nwalk = len(tab), len(walks)
         lines = tab + walks
         for b in walks[:2]:
